@@ -336,6 +336,13 @@ def main(tier):
     R.samples = [{"kernel": c["kernel"], "direction": c["direction"], "spec": c["spec"], "parallel": c["parallel_flag"],
                   "footprint_iter0": reg["fps"][0][:12], "footprint_iter1": reg["fps"][1][:12] if len(reg["fps"]) > 1 else []}
                  for c, reg in list(info.values())[::max(1, len(info) // 6)]]
+    if tier == "thorough":
+        p = subprocess.run(["timeout", "900", "coqchk", "-silent", "-o", "-Q", "theories", "PV", "PV.State.Par", "PV.Props.C06"], cwd=common.COQDIR,
+                           stdout=subprocess.PIPE, stderr=subprocess.STDOUT, text=True)
+        ok = p.returncode == 0 and "Axioms: <none>" in p.stdout
+        R.cov["coqchk"] = "ok: axioms <none>" if ok else p.stdout[-600:]
+        if not ok:
+            R.violation("coqchk does not accept State/Par.vo + Props/C06.vo without axioms", {"theorem_file": "Props/C06.v", "coqchk": p.stdout[-1500:]}, no_input=True)
     if axioms and not set(axioms) <= common.ALLOWED_AXIOMS:
         R.violation("Props/C06.v depends on unexpected axioms %s" % axioms, {"theorem_file": "Props/C06.v", "axioms": axioms}, no_input=True)
     return R.finish()
